@@ -23,14 +23,14 @@ fn main() {
         check_assoc::<B>(&u3[(i / (n3 * n3)) as usize], &u3[((i / n3) % n3) as usize], &u3[(i % n3) as usize], loc)
     }));
     // lax pairs with pending unifications
-    let lspec = if quick { Spec::lax(2, 1, 1, 2, 2, 1, 1, 1) } else { Spec::lax(2, 1, 2, 2, 2, 1, 1, 2) };
+    let lspec = if quick { Spec::lax(2, 1, 1, 2, 2, 1, 1, 1) } else { Spec::lax(2, 1, 2, 2, 1, 1, 1, 2) };
     let lu = lspec.universe().all();
     let ln = lu.len() as u64;
     ctx.run_slice(Slice::new(format!("lax-pairs[{}^2]", lspec.name()), ln * ln, |i, loc| check_lax_pair(&lu[(i / ln) as usize], &lu[(i % ln) as usize], loc)));
     let lspecu = Spec::lax(3, 2, 1, 2, 2, 1, 1, 2);
     let luu = lspecu.universe();
     ctx.run_slice(Slice::new(format!("lax-unit[{}]", lspecu.name()), luu.count().min(if quick { 3_000_000 } else { u64::MAX }), |i, loc| check_lax_unit(&luu.get(i), loc)));
-    let lspec3 = if quick { Spec::lax(2, 1, 1, 1, 1, 1, 0, 1) } else { Spec::lax(2, 1, 1, 2, 1, 1, 1, 1) };
+    let lspec3 = if quick { Spec::lax(2, 1, 1, 1, 1, 1, 0, 1) } else { Spec::lax(2, 1, 1, 1, 1, 1, 1, 1) };
     let lu3 = lspec3.universe().all();
     let ln3 = lu3.len() as u64;
     ctx.run_slice(Slice::new(format!("lax-triples[{}^3]", lspec3.name()), ln3 * ln3 * ln3, |i, loc| {
